@@ -76,27 +76,48 @@ Proof.
   eapply Permutation_cons_inv. eapply perm_trans; [apply Permutation_sym; exact P|exact H].
 Qed.
 
-Definition sch_zrun (s : sch_state) : list Z := map sch_zid (sch_runlist (sch_tasks s)).
+Definition sch_zrun (s : sch_state) : list Z := map sch_zid (sch_runlist (sch_tasks s) ++ sch_flights s).
 
 Lemma sch_runlist_cons y l : sch_runlist (y :: l) = if sch_is_run y then fst y :: sch_runlist l else sch_runlist l.
 Proof. unfold sch_runlist. cbn [filter]. destruct (sch_is_run y); reflexivity. Qed.
 
-(* steps other than a successful test-and-set and result processing leave the multiset of running tasks alone *)
+Lemma sch_frem1_perm c l : sch_fmem c l = true -> Permutation l (c :: sch_frem1 c l).
+Proof.
+  induction l as [|x l IH]; [discriminate|]. cbn [sch_fmem existsb sch_frem1]. intros H.
+  destruct (Nat.eqb_spec c x) as [E|E]; [subst; apply Permutation_refl|]. cbn [orb] in H.
+  eapply perm_trans; [apply perm_skip; apply IH; exact H|apply perm_swap].
+Qed.
+
+(* steps other than a successful test-and-set and the end of a command leave the multiset of executions at work alone *)
 Lemma sch_zrun_step s a s' :
   sch_exec s a = Some s' -> sch_observe s a = [] \/ (exists cs, a = SchASnap cs) -> Permutation (sch_zrun s') (sch_zrun s).
 Proof.
   intros H O. unfold sch_zrun. apply Permutation_map.
-  destruct a; sch_cases H; cbn [sch_tasks sch_s_sets sch_s_cks sch_s_tasks sch_s_pc sch_s_clock]; unfold sch_s_pc;
-    cbn [sch_tasks sch_s_sets sch_s_cks sch_s_tasks sch_s_pc sch_s_clock];
+  destruct a; sch_cases H; cbn [sch_tasks sch_flights sch_s_sets sch_s_cks sch_s_tasks sch_s_pc sch_s_clock sch_s_fl]; unfold sch_s_pc;
+    cbn [sch_tasks sch_flights sch_s_sets sch_s_cks sch_s_tasks sch_s_pc sch_s_clock sch_s_fl];
     try apply Permutation_refl;
     try match goal with Hh : sch_has _ _ && _ = true |- _ => apply andb_true_iff in Hh; destruct Hh as [Hh _] end;
     try match goal with Hh : sch_has ?y ?l = true |- _ => pose proof (sch_runlist_rem1 y l Hh) as P; cbn in P end;
     rewrite ?sch_runlist_cons; cbn [sch_is_run snd sch_tpc_eqb fst];
-    try (apply Permutation_sym; exact P); try apply Permutation_refl.
+    try (apply Permutation_app_tail; apply Permutation_sym; exact P); try apply Permutation_refl.
   - (* successful test-and-set emits an event *)
     cbn [sch_observe] in O. rewrite Heqb0 in O. destruct O as [O|[cs O]]; discriminate.
   - cbn [sch_observe] in O. destruct O as [O|[cs O]]; discriminate.
+  - (* launch: the execution moves from the task to the multiset of asynchronous executions *)
+    apply Permutation_sym. eapply perm_trans; [apply Permutation_app_tail; exact P|]. cbn [app].
+    apply Permutation_middle.
+  - cbn [sch_observe] in O. destruct O as [O|[cs O]]; discriminate.
+  - cbn [sch_observe] in O. destruct O as [O|[cs O]]; discriminate.
 Qed.
+
+Lemma sch_zrun_len s : sch_invB s -> Z.of_nat (length (sch_zrun s)) + sch_pre (sch_pc s) + sch_postc (sch_pc s) <= sch_max s.
+Proof.
+  intros (_ & _ & BD). unfold sch_zrun. rewrite map_length, app_length. unfold sch_slots in BD.
+  pose proof (sch_runlist_nslot (sch_tasks s)) as RL. unfold sch_nslot in RL. lia.
+Qed.
+
+Lemma sch_pre_postc_nonneg pc : 0 <= sch_pre pc + sch_postc pc.
+Proof. destruct pc; cbn; lia. Qed.
 
 Lemma sch_oracle_model l : forall s R idx max,
   sch_invA s -> sch_invB s -> sch_max s = max -> Permutation R (sch_zrun s) ->
@@ -112,40 +133,62 @@ Proof.
   - cbn [app sch_oracle_from]. destruct a; cbn [sch_observe] in O; try discriminate O.
     + (* test-and-set *)
       destruct (sch_running (sch_cks s c)) eqn:Hr; [discriminate|]. injection O as <-.
-      destruct B as (F & _ & _). specialize (F c). rewrite Hr in F.
+      pose proof B as (F & _ & _). specialize (F c). rewrite Hr in F.
       assert (Hnot : ~ In (sch_zid c) R).
       { intros Hin. eapply Permutation_in in Hin; [|exact P]. unfold sch_zrun in Hin. apply in_map_iff in Hin.
-        destruct Hin as (x & Hx & Hin). apply sch_zid_inj in Hx. subst x.
-        rewrite sch_cnt_runlist in F. apply (count_occ_In Nat.eq_dec) in Hin. lia. }
+        destruct Hin as (x & Hx & Hin). apply sch_zid_inj in Hx. subst x. apply in_app_or in Hin. destruct Hin as [Hin|Hin].
+        - rewrite sch_cnt_runlist in F. apply (count_occ_In Nat.eq_dec) in Hin. lia.
+        - assert (Hf : sch_fmem c (sch_flights s) = true) by (unfold sch_fmem; apply existsb_exists; exists c; split; [assumption|apply Nat.eqb_refl]).
+          apply sch_fmem_cnt in Hf. lia. }
       rewrite (sch_memb_false _ _ Hnot).
-      revert M1. sch_cases E; [congruence|]. intros M1.
-      assert (P1 : Permutation (sch_zid c :: R) (sch_zrun (sch_s_tasks (sch_s_cks s (sch_upd (sch_cks s) c (sch_k_running (sch_cks s c) true)))
-                    ((c, SchTRunning) :: sch_rem1 (c, SchTUpdated) (sch_tasks s)) (sch_pcount s)))).
-      { unfold sch_zrun. cbn [sch_tasks sch_s_tasks]. rewrite sch_runlist_cons. cbn [sch_is_run snd sch_tpc_eqb fst map].
-        apply perm_skip. eapply perm_trans; [exact P|]. unfold sch_zrun. apply Permutation_map.
+      assert (P1 : Permutation (sch_zid c :: R) (sch_zrun s1)).
+      { revert M1 A1 B1. sch_cases E; [congruence|]. intros _ _ _.
+        unfold sch_zrun. cbn [sch_tasks sch_flights sch_s_tasks sch_s_cks]. rewrite sch_runlist_cons. cbn [sch_is_run snd sch_tpc_eqb fst map app].
+        apply perm_skip. eapply perm_trans; [exact P|]. unfold sch_zrun. apply Permutation_map. apply Permutation_app_tail.
         pose proof (sch_runlist_rem1 _ _ Heqb) as Q. cbn in Q. exact Q. }
-      pose proof B1 as (_ & CN & BD).
       assert (Hlen : Z.of_nat (S (length R)) <= max).
-      { pose proof (Permutation_length P1) as L. cbn [length] in L. rewrite L. unfold sch_zrun. rewrite map_length.
-        pose proof (sch_runlist_live (sch_tasks (sch_s_tasks (sch_s_cks s (sch_upd (sch_cks s) c (sch_k_running (sch_cks s c) true)))
-                    ((c, SchTRunning) :: sch_rem1 (c, SchTUpdated) (sch_tasks s)) (sch_pcount s)))) as RL.
-        rewrite M1 in BD. cbn [sch_pcount sch_tasks sch_pc sch_s_tasks sch_s_cks] in *.
-        destruct (sch_pc s); cbn [sch_pre sch_postc] in *; lia. }
+      { pose proof (Permutation_length P1) as L. cbn [length] in L. rewrite L.
+        pose proof (sch_zrun_len s1 B1) as ZL. pose proof (sch_pre_postc_nonneg (sch_pc s1)). lia. }
       apply Z.ltb_ge in Hlen. rewrite Hlen.
       apply IH; try assumption.
-    + (* result *)
-      injection O as <-. revert M1. sch_cases E. intros M1.
+    + (* result of a synchronous command *)
+      injection O as <-. revert M1 A1 B1. sch_cases E. intros M1 A1 B1.
       assert (Hin : In (sch_zid c) R).
-      { eapply Permutation_in; [apply Permutation_sym; exact P|]. unfold sch_zrun. apply in_map.
+      { eapply Permutation_in; [apply Permutation_sym; exact P|]. unfold sch_zrun. apply in_map. apply in_or_app. left.
         pose proof (sch_runlist_rem1 _ _ Heqb) as Q. cbn in Q. eapply Permutation_in; [apply Permutation_sym; exact Q|left; reflexivity]. }
       apply sch_memb_in in Hin. rewrite Hin.
       apply IH; try assumption.
-      apply sch_perm_remove1. eapply perm_trans; [exact P|]. unfold sch_zrun. cbn [sch_tasks sch_s_tasks].
+      apply sch_perm_remove1. eapply perm_trans; [exact P|]. unfold sch_zrun. cbn [sch_tasks sch_flights sch_s_tasks sch_s_cks].
       rewrite sch_runlist_cons. cbn [sch_is_run snd sch_tpc_eqb].
       pose proof (sch_runlist_rem1 _ _ Heqb) as Q. cbn in Q.
-      change (sch_zid c :: map sch_zid (sch_runlist (sch_rem1 (c, SchTRunning) (sch_tasks s))))
-        with (map sch_zid (c :: sch_runlist (sch_rem1 (c, SchTRunning) (sch_tasks s)))).
-      apply Permutation_map. exact Q.
+      change (sch_zid c :: map sch_zid (sch_runlist (sch_rem1 (c, SchTRunning) (sch_tasks s)) ++ sch_flights s))
+        with (map sch_zid ((c :: sch_runlist (sch_rem1 (c, SchTRunning) (sch_tasks s))) ++ sch_flights s)).
+      apply Permutation_map. apply Permutation_app_tail. exact Q.
+    + (* end of an asynchronous command *)
+      injection O as <-. revert M1 A1 B1. sch_cases E. intros M1 A1 B1.
+      pose proof (sch_frem1_perm _ _ Heqb) as Q.
+      assert (Hin : In (sch_zid c) R).
+      { eapply Permutation_in; [apply Permutation_sym; exact P|]. unfold sch_zrun. apply in_map. apply in_or_app. right.
+        eapply Permutation_in; [apply Permutation_sym; exact Q|left; reflexivity]. }
+      apply sch_memb_in in Hin. rewrite Hin.
+      apply IH; try assumption.
+      apply sch_perm_remove1. eapply perm_trans; [exact P|]. unfold sch_zrun. cbn [sch_tasks sch_flights sch_s_tasks sch_s_fl].
+      change (sch_zid c :: map sch_zid (sch_runlist (sch_tasks s) ++ sch_frem1 c (sch_flights s)))
+        with (map sch_zid (c :: sch_runlist (sch_tasks s) ++ sch_frem1 c (sch_flights s))).
+      apply Permutation_map. eapply perm_trans; [apply Permutation_app_head; exact Q|]. apply Permutation_sym. apply Permutation_middle.
+    + (* remote execution: released on return *)
+      injection O as <-. revert M1 A1 B1. sch_cases E. intros M1 A1 B1.
+      assert (Hin : In (sch_zid c) R).
+      { eapply Permutation_in; [apply Permutation_sym; exact P|]. unfold sch_zrun. apply in_map. apply in_or_app. left.
+        pose proof (sch_runlist_rem1 _ _ Heqb) as Q. cbn in Q. eapply Permutation_in; [apply Permutation_sym; exact Q|left; reflexivity]. }
+      apply sch_memb_in in Hin. rewrite Hin.
+      apply IH; try assumption.
+      apply sch_perm_remove1. eapply perm_trans; [exact P|]. unfold sch_zrun. cbn [sch_tasks sch_flights sch_s_tasks sch_s_cks].
+      rewrite sch_runlist_cons. cbn [sch_is_run snd sch_tpc_eqb].
+      pose proof (sch_runlist_rem1 _ _ Heqb) as Q. cbn in Q.
+      change (sch_zid c :: map sch_zid (sch_runlist (sch_rem1 (c, SchTRunning) (sch_tasks s)) ++ sch_flights s))
+        with (map sch_zid ((c :: sch_runlist (sch_rem1 (c, SchTRunning) (sch_tasks s))) ++ sch_flights s)).
+      apply Permutation_map. apply Permutation_app_tail. exact Q.
     + (* snapshot *)
       injection O as <-. assert (U : sch_unlocked s = true) by (clear M1; sch_cases E; first [reflexivity|assumption]).
       fold (sch_zids (sch_idle s)) (sch_zids (sch_pend s)). rewrite (sch_snap_ok s cs A U). cbn [Z.eqb].
